@@ -338,6 +338,14 @@ def o4(W, ob):
 
 from . import helpers
 
+
+def _c14_o4(W, ob):
+    from . import c14
+    c14.o4(W, ob)
+
+
+from . import initial
+
 OBLIGATIONS = [
     ('C03.O1', 'status constructors', 'Predicted only from InputQueue::input (sticky prediction = predictor(newest real '
      'input) or default); Confirmed carries the stored input behind the frame equality; Disconnected carries the default.', o1),
@@ -350,4 +358,6 @@ OBLIGATIONS = [
      'inserted fills, and sequential remote inputs of connected players (paired with add_remote_input); confirmed_frame() '
      'is a min over connected players.', o4),
     ('C03.H', 'helpers the rules above rely on', 'the bodies of the helpers named by this property\'s rules compute what the rules assume (prev_pos, add_input, player_input, confirmed_input); see rules/helpers.py', helpers.bundle('prev_pos', 'add_input', 'player_input', 'confirmed_input')),
+    ('C03.O14', 'received bytes decode to what was sent (= C14.O4)', 'see C14.O4: the reader of the run-length layer uses the writer\'s table', _c14_o4, {'deps': True}),
+    ('C03.I', 'initial state', 'every constructor gives the fields this property\'s rules interpret (NULL_FRAME = none / nothing yet, 0 = first frame, latches open, typestate start) the value listed in tables/initial_state.json; every field compared with NULL_FRAME anywhere is listed; see rules/initial.py', initial.rule_for('C03')),
 ]
